@@ -161,6 +161,11 @@ def vacuity(ck, tr, s, first):
     ck.sample(dict(trace="rounds-seed%d" % s, events=[e for e in tr["rounds"] if e["ev"] == "ARound" and e["polled"]][:1]))
 
 
+def replay(ck, obj):
+    """re-validate the recorded trace a violation file points at (python3 tools/check.py C20 --replay <file>)"""
+    vlib.validate_trace(ck, SPECDIR, "PollingTrace", "PollingTrace.cfg", obj["replay"]["trace"], "replay")
+
+
 MANIFEST = dict(
     text=("TLC checks on Polling.tla/PollingLoop.tla (subscriber round: CatchUp, poll, progress := next_after - next_before, interval := Predict(progress) with the predictor "
           "transcribed from predictor.go in Go integer arithmetic, delay := max(pollTime+interval-now,0) + min(offset, delay/2)) that progress equals the advance, the delay lies "
